@@ -90,8 +90,11 @@ impl<const N: usize> NodeVersions<N> {
                 // We have already observed these events at some point from this node.
                 // This means we can no longer trust that this key is in fact still valid.
                 if &ts < entry.get() {
+                    // An older event than the newest we have seen from this node on this
+                    // source. It is still accepted if it is within the forgiveness period,
+                    // which keeps this in line with `will_apply`.
                     self.compute_safe_last_stamp(ts.node());
-                    return false;
+                    return !self.is_ts_before_last_observed_event(ts);
                 }
 
                 entry.insert(ts);
